@@ -21,7 +21,12 @@ CLAIMS = {
              "numbers of tasks and all interleavings of the operation segments and cancellations; "
              "the model is tied to src/anyio/_backends/_asyncio.py:Lock by replaying every loop "
              "handle of randomly generated multi-task programs in the model and comparing outcomes "
-             "and statistics(); an oracle written from the property checks the same histories.",
+             "and statistics(); an oracle written from the property checks the same histories. "
+             "History level (Props/C09fifo.lean, 7 theorems): for every event list the hand-overs followed by "
+             "the queue are a subsequence of the order in which tasks started waiting (C09_fifo_history), every "
+             "start of waiting is accounted for exactly once as served / cancelled / still queued "
+             "(C09_fifo_accounting), and without cancellations served ++ queued = started-waiting "
+             "(C09_fifo_exact); the logs are read off what a step did (handedTo sound and complete).",
         design="5/C09",
         note=BASE_NOTE + "Modelled, not verified: asyncio.Future/Task cancellation mechanics "
              "(events fc/mc are observed on the real tasks).",
